@@ -659,7 +659,7 @@ func runForgery(t failer, check string, b Base, ai int, src issuer.Source) {
 		twinRejected(fmt.Sprintf("valid twin of %s rejected (parse %q, err %q, panic %q) [%s]", a.name, og.ParseErr, og.Err, og.Panic, b.key()))
 		return
 	}
-	evid.Case("forgery:"+a.name, true, a.name+"|"+b.key(), nil)
+	evid.CaseFn("forgery:"+a.name, true, a.name+"|"+b.key(), func() any { return map[string]any{"attack": a.name, "issuing_profile": b} })
 	evid.Count("scheme:"+b.DSSig.Scheme+"-"+b.DSSig.Hash, 1)
 	evid.Count("ds-key:"+keyClass(b.DSKey), 1)
 	if ob.Panic != "" {
@@ -931,7 +931,7 @@ func runMLForgery(t failer, check string, b Base, ai int, src issuer.Source) {
 		evid.Fail(t, check, repro, "CreateCertPoolFromSignedData returns other certificates than the signed list (twin of %s) [%s]", a.name, b.key())
 		return
 	}
-	evid.Case("forgery:"+a.name, true, a.name+"|"+b.key(), nil)
+	evid.CaseFn("forgery:"+a.name, true, a.name+"|"+b.key(), func() any { return map[string]any{"attack": a.name, "issuing_profile": b} })
 }
 
 // TestMasterListForgeries (quick 240, thorough 6 000).
